@@ -617,4 +617,171 @@ def ecaAnalysisF32 (w : Window) (ts : List Rat) (E : Mat Bool) (n : Nat) (taumax
   (ecaMatrix w ts E n taumax lag).map fun M =>
     symmetrize n none (symmOpN s) (M.map fun row => row.map fun e => e.map rn24)
 
+/-! ## round 4: the float64 strengths `count / np.sqrt((lx - 2) * (ly - 2))`
+
+The counts are half-integers (exact doubles), `(lx-2)*(ly-2)` is a Python `int`.  `np.sqrt`
+is IEEE `sqrt` (correctly rounded), `/` is IEEE division (correctly rounded).  Both are
+modelled over exact rationals: `sqrt53 n` is *the double nearest to `√n`*, computed from the
+integer square root of `n·4⁵⁴`; the quotient is rounded by `Similarity.rn53`. -/
+
+/-- signed round-to-nearest-even to 53 bits (`Similarity.rn53` handles `x > 0`) -/
+def rn53s (x : Rat) : Rat :=
+  if x < 0 then -(Similarity.rn53 (-x)) else Similarity.rn53 x
+
+/-- `⌊√(n·4⁵⁴)⌋` has at least 55 bits for `n ≥ 1` -/
+def sqrtBits : Nat := 54
+
+/-- `⌊√n · 2⁵⁴⌋ / 2⁵⁴` : the square root of `n` cut off after 54 binary places -/
+def sqrtFloor (n : Nat) : Rat :=
+  (Nat.sqrt (n * 4 ^ sqrtBits) : Rat) / ((2 ^ sqrtBits : Nat) : Rat)
+
+/-- a rational that rounds to 53 bits exactly as `√n` does: `√n` itself if `n` is a perfect
+square, otherwise the midpoint of the interval `(m, m+1)/2⁵⁴` that contains `√n` (`m ≥ 2⁵⁴`,
+so neither a double nor the midpoint of two neighbouring doubles lies strictly inside) -/
+def sqrtSticky (n : Nat) : Rat :=
+  let N := n * 4 ^ sqrtBits
+  let m := Nat.sqrt N
+  if m * m = N then sqrtFloor n
+  else sqrtFloor n + 1 / ((2 ^ (sqrtBits + 1) : Nat) : Rat)
+
+/-- `np.sqrt(n)` for a Python int `n < 2⁵³`: the double nearest to `√n` -/
+def sqrt53 (n : Nat) : Rat := Similarity.rn53 (sqrtSticky n)
+
+/-- `count / norm` in float64 -/
+def strengthF64 (c : Rat) (n : Nat) : Rat := rn53s (c / sqrt53 n)
+
+/-- the pair of doubles `event_synchronization` returns (`none` = NaN) -/
+def esF64 : ESRes → Option Rat × Option Rat
+  | .nan => (none, none)
+  | .zero => (some 0, some 0)
+  | .val a b n => (some (strengthF64 a n), some (strengthF64 b n))
+
+/-- an entry of the float64 matrix `_ndim_event_synchronization` fills -/
+def esEntryF64 : ESEntry → Option Rat
+  | none => none
+  | some (c, n) => some (strengthF64 c n)
+
+/-- the six helpers in float64: `matrix + matrix.T`, `matrix - matrix.T`,
+`np.mean([matrix, matrix.T], axis=0)` (the sum is rounded, halving is exact),
+`np.maximum`, `np.minimum` (exact) -/
+def symmOpF64 : Symm → Rat → Rat → Rat
+  | .directed, a, _ => a
+  | .symmetric, a, b => rn53s (a + b)
+  | .antisym, a, b => rn53s (a - b)
+  | .mean, a, b => rn53s (a + b) / 2
+  | .max, a, b => max a b
+  | .min, a, b => min a b
+
+def symmOpF64N (s : Symm) (a b : Option Rat) : Option Rat :=
+  match s, a, b with
+  | .directed, a, _ => a
+  | s, some a, some b => some (symmOpF64 s a b)
+  | _, _, _ => none
+
+/-- `event_series_analysis(method='ES', symmetrization=s)` as the doubles it returns -/
+def esAnalysisF64 (ts : List Rat) (E : Mat Bool) (n : Nat) (taumax : Option Rat) (lag : Rat)
+    (s : Symm) : Mat (Option Rat) :=
+  symmetrize n none (symmOpF64N s)
+    ((esMatrix ts E n taumax lag).map fun row => row.map esEntryF64)
+
+/-! ## round 4: `np.quantile` as NumPy computes it (method `'linear'`)
+
+`numpy/lib/_function_base_impl.py`: `_quantile` takes the virtual index
+`_QuantileMethods['linear']['get_virtual_index'](n, q) = (n - 1) * q`, `_get_indexes` floors it
+(`previous`), adds one (`next`), replaces both by `-1` (the last element) where the virtual
+index is `≥ n - 1` and by `0` where it is negative, `_get_gamma` is
+`virtual_indexes - previous_indexes` (through `fix_gamma = identity`), and `_lerp(a, b, t)` is
+`a + (b - a) * t`, overwritten by `b - (b - a) * (1 - t)` where `t ≥ 0.5`.
+`translate/gen_C16.py` regenerates these expressions from the installed NumPy;
+`npQuantile_eq_quantile` proves the result is the `quantile` above. -/
+
+/-- Python indexing of a list: a negative index counts from the end -/
+def pyIdx (s : List Rat) (i : Int) : Rat :=
+  if i < 0 then s.getD (s.length - (-i).toNat) 0 else s.getD i.toNat 0
+
+/-- `_lerp(a, b, t)` -/
+def npLerp (a b t : Rat) : Rat :=
+  if t ≥ 1 / 2 then b - (b - a) * (1 - t) else a + (b - a) * t
+
+/-- `_get_indexes`: `(previous_indexes, next_indexes)` for virtual index `v`, `n` values -/
+def npIndexes (v : Rat) (n : Nat) : Int × Int :=
+  let prev : Int := v.floor
+  let next : Int := prev + 1
+  let (prev, next) := if v ≥ (n : Rat) - 1 then ((-1 : Int), (-1 : Int)) else (prev, next)
+  if v < 0 then (0, 0) else (prev, next)
+
+/-- `np.quantile(a, q)` for a non-empty 1-D array and `0 ≤ q ≤ 1` as `_quantile` evaluates it
+(the partition puts the order statistics needed into place: `s` is the sorted array) -/
+def npQuantile (a : List Rat) (q : Rat) : Rat :=
+  let s := a.mergeSort (fun x y => decide (x ≤ y))
+  let n := s.length
+  let v : Rat := ((n : Rat) - 1) * q
+  let ix := npIndexes v n
+  let gamma := v - (ix.1 : Rat)
+  npLerp (pyIdx s ix.1) (pyIdx s ix.2) gamma
+
+/-- `np.median` (`_median`): the middle element, or the mean of the two middle elements -/
+def npMedian (a : List Rat) : Rat :=
+  let s := a.mergeSort (fun x y => decide (x ≤ y))
+  let n := s.length
+  if n % 2 = 1 then s.getD (n / 2) 0 else (s.getD (n / 2 - 1) 0 + s.getD (n / 2) 0) / 2
+
+/-! ## round 4: the dtype of the array `thresholds`
+
+`thresholds = np.zeros(data.shape[1])` is a float64 array: storing a double (a given value,
+or the result of `np.quantile` / `np.median`, which is float64 for float64 and integer data
+and float32 for float32 data) into it is exact.  Allocated in the dtype of integer data
+(`dtype=data.dtype`) the store would truncate towards zero.  `translate/gen_C16.py` reads the
+allocation statement; `gen_threshold_store` ties `StoreTy.float64` to it. -/
+
+inductive StoreTy | float64 | dataInt
+deriving Repr, DecidableEq
+
+/-- C cast `double -> int64`: truncation towards zero -/
+def truncZero (x : Rat) : Rat := if x < 0 then -((-x).floor : Rat) else (x.floor : Rat)
+
+/-- `thresholds[i] = x` for an array of the given dtype (`x` a double) -/
+def storeThr : StoreTy → Rat → Rat
+  | .float64, x => x
+  | .dataInt, x => truncZero x
+
+/-- dtype named by the allocation statement (`none`: not one the model knows) -/
+def storeOfDType : String → Option StoreTy
+  | "float64" => some .float64
+  | "data.dtype" => some .dataInt
+  | _ => none
+
+/-- `make_event_matrix` with the thresholds passing through an array of dtype `st`; the
+default type of method `'value'` is decided on the *stored* threshold (`thresholds[i] >=
+np.median(...)`), that of method `'quantile'` on the quantile level -/
+def resolveThresholdD (st : StoreTy) (col : List Rat) (m : TMethod) (v : Option Rat)
+    (t : Option TType) : Except ThrErr (Rat × TType) :=
+  match m with
+  | .quantile =>
+    match v with
+    | some q =>
+      if q > 1 ∨ q < 0 then .error .valueError
+      else .ok (storeThr st (npQuantile col q), t.getD (if q ≥ 1 / 2 then .above else .below))
+    | none => .ok (storeThr st (npQuantile col (1 / 2)), t.getD .above)
+  | .value =>
+    match v with
+    | none =>
+      let th := storeThr st (npMedian col)
+      .ok (th, t.getD (if th ≥ npMedian col then .above else .below))
+    | some x =>
+      if col.all (fun d => decide (d < x)) ∨ col.all (fun d => decide (d > x)) then
+        .error .ioError
+      else
+        let th := storeThr st x
+        .ok (th, t.getD (if th ≥ npMedian col then .above else .below))
+
+def makeEventMatrixD (st : StoreTy) (data : Mat Rat) (nvar : Nat) (ms : List TMethod)
+    (vs : List (Option Rat)) (tys : List (Option TType)) : Except ThrErr (Mat Bool) := do
+  let thr ← (List.range nvar).mapM fun i =>
+    resolveThresholdD st (dataColumn data i) (ms.getD i .quantile) (vs.getD i none)
+      (tys.getD i none)
+  pure (data.map fun row => (List.range nvar).map fun i =>
+    let p := thr.getD i (0, .above)
+    mark p.1 p.2 (row.getD i 0))
+
 end Pyunicorn.Events
